@@ -52,10 +52,16 @@ public:
   noexcept
   {
     auto lock = get_lock();
-    trompeloeil_lifetime_monitor = monitor;
-    return trompeloeil_lifetime_monitor.leak();
+    return link_monitor(trompeloeil_lifetime_monitor.leak(), monitor);
   }
 private:
+  static
+  trompeloeil::lifetime_monitor*&
+  link_monitor(
+    trompeloeil::lifetime_monitor*& first,
+    trompeloeil::lifetime_monitor* monitor)
+  noexcept;
+
   mutable null_on_move<trompeloeil::lifetime_monitor> trompeloeil_lifetime_monitor;
 };
 
@@ -97,7 +103,13 @@ struct lifetime_monitor : public expectation
       std::ostringstream os;
       os << "Object " << object_name << " is still alive";
       send_report<specialized>(severity::nonfatal, loc, os.str());
-      object_monitor = nullptr; // prevent its death poking this cadaver
+      // prevent its death poking this cadaver
+      auto link = &object_monitor;
+      while (*link != this)
+      {
+        link = &(*link)->older;
+      }
+      *link = older;
     }
     sequences->retire();
   }
@@ -131,7 +143,11 @@ struct lifetime_monitor : public expectation
     sequences = std::move(seq);
   }
 private:
+  template <typename T>
+  friend class deathwatched;
+
   atomic<bool>       died{false};
+  lifetime_monitor  *older = nullptr; // next in the object's chain of monitors
   lifetime_monitor *&object_monitor;
   location           loc;
   char const        *object_name;
@@ -141,12 +157,27 @@ private:
 };
 
 template <typename T>
+trompeloeil::lifetime_monitor*&
+deathwatched<T>::link_monitor(
+  trompeloeil::lifetime_monitor*& first,
+  trompeloeil::lifetime_monitor* monitor)
+noexcept
+{
+  monitor->older = first;
+  first = monitor;
+  return first;
+}
+
+template <typename T>
 deathwatched<T>::~deathwatched()
 {
   auto lock = get_lock();
   if (trompeloeil_lifetime_monitor)
   {
-    trompeloeil_lifetime_monitor->notify();
+    for (auto m = trompeloeil_lifetime_monitor.leak(); m; m = m->older)
+    {
+      m->notify();
+    }
     return;
   }
   std::ostringstream os;
